@@ -214,6 +214,9 @@ class Run:
             p = os.path.join(self.tmp, "movie.mp4")
             open(p, "wb").write(b"\x00\x00\x00\x18ftypmp42" + bytes(r.randrange(256) for _ in range(64)))
             f["movie"] = p
+            p = os.path.join(self.tmp, "CLIP.MP4")  # upper-case extension: content types resolve case-insensitively
+            open(p, "wb").write(b"\x00\x00\x00\x18ftypmp42" + bytes(r.randrange(256) for _ in range(48)))
+            f["movie_upper"] = p
             p = os.path.join(self.tmp, "embedded.xlsx")
             open(p, "wb").write(b"PK\x05\x06" + b"\x00" * 18)
             f["ole"] = p
@@ -378,6 +381,16 @@ class Run:
             prs.save(path)
             data = open(path, "rb").read()
             os.unlink(path)
+        elif how == "same-stream":
+            # the caller keeps one stream object and saves into it again and again (never rewinds it)
+            if getattr(self, "shared_stream", None) is None:
+                self.shared_stream = io.BytesIO()
+            prs.save(self.shared_stream)
+            data = self.shared_stream.getvalue()
+        elif how == "same-path":
+            path = os.path.join(self.tmp, "same_%s.pptx" % "_".join(str(x) for x in self.seed_parts))
+            prs.save(path)
+            data = open(path, "rb").read()
         else:
             buf = io.BytesIO()
             prs.save(buf)
